@@ -3,7 +3,7 @@ import glob
 import os
 import random
 
-from vf.harness import B, R, U32, Ob, build
+from vf.harness import B, R, U8, U32, Ob, build
 
 EXPLANATION = (
     "C18: the real read_sunvox_file runs on a FaultFile (pure-Python file whose k-th read raises, or from whose k-th read on every read returns b'' = "
@@ -27,21 +27,51 @@ import rv.modules.metamodule as _mm
 import rv.modules.sampler as _smp
 
 
-class FakePath:
-    """stands in for pathlib.Path inside rv.readers.reader: .open() hands out the prepared file"""
-    current = None
+import builtins as _bi
+import io as _io
+import pathlib as _pl
 
-    def __init__(self, name):
-        self.name = name
-
-    def open(self, mode="rb"):
-        return FakePath.current
+FAULT_NAME = "vf_fault_injected_file.sunvox"
+_CURRENT = {"f": None, "opened": 0}
 
 
-def run(data, k, init, mode, by_path, nested_k=None):
+def _is_fault(name):
+    try:
+        return str(name).endswith(FAULT_NAME)
+    except Exception:
+        return False
+
+
+def _open_hook(orig):
+    def opener(name, *a, **kw):
+        if _is_fault(name):
+            _CURRENT["opened"] += 1
+            return _CURRENT["f"]
+        return orig(name, *a, **kw)
+    return opener
+
+
+def _path_open(self, *a, **kw):
+    if _is_fault(self):
+        _CURRENT["opened"] += 1
+        return _CURRENT["f"]
+    return _ORIG_PATH_OPEN(self, *a, **kw)
+
+
+_ORIG_PATH_OPEN = _pl.Path.open
+
+
+def run(data, k, init, mode, by_path, nested_k=None, use_str=True):
     """-> True iff flag restored (and file closed when opened by the library)"""
     f = FaultFile(data, k, mode)
-    old_path, old_mm, old_smp = _reader.Path, _mm.BytesIO, _smp.BytesIO
+    _CURRENT["f"] = f
+    _CURRENT["opened"] = 0
+    old_mm, old_smp = _mm.BytesIO, _smp.BytesIO
+    old_open, old_ioopen = _bi.open, _io.open
+    # however the library opens a path (pathlib, builtins.open, io.open), the prepared file is what it gets
+    _pl.Path.open = _path_open
+    _bi.open = _open_hook(old_open)
+    _io.open = _open_hook(old_ioopen)
     if nested_k is not None:
         mk = lambda d=b"": FaultFile(d, nested_k, mode)
         _mm.BytesIO = mk
@@ -50,21 +80,20 @@ def run(data, k, init, mode, by_path, nested_k=None):
     try:
         try:
             if by_path:
-                FakePath.current = f
-                _reader.Path = FakePath
-                read_sunvox_file("some/file.sunvox")
+                read_sunvox_file(("dir/" + FAULT_NAME) if use_str else _pl.Path("dir") / FAULT_NAME)
             else:
                 read_sunvox_file(f)
         except Exception:
             pass
         ok = rv.errors.RAISE_CONTROLLER_VALUE_ERRORS is init
-        if by_path and not f.closed:
-            ok = False
+        if by_path and (_CURRENT["opened"] != 1 or not f.closed):
+            ok = False   # the library must have opened the path exactly once and closed what it opened
         if not by_path and f.closed:
             ok = False   # a file object handed in by the caller is the caller's to close
     finally:
         rv.errors.RAISE_CONTROLLER_VALUE_ERRORS = True
-        _reader.Path, _mm.BytesIO, _smp.BytesIO = old_path, old_mm, old_smp
+        _mm.BytesIO, _smp.BytesIO = old_mm, old_smp
+        _pl.Path.open, _bi.open, _io.open = _ORIG_PATH_OPEN, old_open, old_ioopen
     return ok
 '''
 
@@ -111,6 +140,29 @@ def obligations(tier, seed):
                                   + (" and the file opened from the path is closed" if by_path else " and the caller's file object is left open"),
                                   group=mode, shape=f"{os.path.basename(path)} ({len(data)} bytes, {R_} read calls), input given as {'path' if by_path else 'file object'}",
                                   symbolic=f"fault index k over {lo}..{hi} (segments cover 1..{R_ + 1}), initial flag value", timeout=300))
+    # files that do not start like a SunVox file (first byte(s) arbitrary, or shorter than a chunk header), given as a path
+    R0, data0 = count_reads(FIX + "/amplifier.sunsynth")
+    for cut in (0, 1, 2, 3):
+        body = f"""
+    data = bytes([b0, b1, b2])[:{cut}]
+    return run(data, 10**9, init, "raise", True, use_str=as_str)
+"""
+        obs.append(Ob(f"header.cut{cut}", build([U8("b0"), U8("b1"), U8("b2"), B("init"), B("as_str")], body, setup=SETUP),
+                      f"a file of {cut} arbitrary bytes (shorter than a chunk id), given as str or Path: flag restored, the opened file closed", group="malformed",
+                      shape=f"{cut}-byte file", symbolic="the bytes, initial flag, str-or-Path", timeout=240))
+    heads = [b"RIFF", b"SVOX", b"SSYN", b"XSYN", b"SSYM", b"\0\0\0\0", b"svox"]
+    for cut in (4, 7, 8, 12, len(data0)):
+        body = f"""
+    hd = None
+    for i_ in range(len(HEADS)):
+        if sel == i_:
+            hd = HEADS[i_]
+    data = hd + DATA[4:{cut}]
+    return run(data, 10**9, init, "raise", True, use_str=as_str)
+"""
+        obs.append(Ob(f"header.magic{cut}", build([R("sel", 0, len(heads) - 1), B("init"), B("as_str")], body, setup=SETUP + f"DATA = {data0!r}\nHEADS = {heads!r}\n"),
+                      f"a {cut}-byte file starting with one of {len(heads)} magic values (foreign, wrong-case, right ones), given as str or Path: flag restored, the opened file closed", group="malformed",
+                      shape=f"amplifier.sunsynth cut to {cut} bytes with its first chunk id replaced", symbolic="which magic (symbolic selector), initial flag, str-or-Path", timeout=240))
     # nested loads: embedded project of a MetaModule, effect of a Sampler
     nested = [FIX + "/metamodule.sunsynth"] if tier == "quick" else [FIX + "/metamodule.sunsynth", FIX + "/metamodule-option-79.sunsynth", FIX + "/sampler.sunsynth"]
     for path in nested:
